@@ -79,3 +79,67 @@ def gen_special_hosts_re():
         "end Ural.Gen.SpecialHostsRe\n"
     ) % (lean_str(SPECIAL_HOSTS_RE.pattern), int(SPECIAL_HOSTS_RE.flags), rows)
     return {"SpecialHostsRe.lean": src}
+
+
+NFKC_DELIMS = "/?#@:"
+
+
+def nfkc_rejected_codes():
+    """the code points `urllib.parse.urlsplit` refuses in a netloc because of their NFKC form
+    (`_checknetloc`), OBSERVED on the running interpreter: every code point whose NFKC form
+    differs from itself is put alone into an authority and handed to the real `urlsplit`"""
+    import unicodedata
+    from urllib.parse import urlsplit
+
+    out = []
+    for cp in range(0x80, 0x110000):
+        if 0xD800 <= cp <= 0xDFFF:
+            continue
+        c = chr(cp)
+        if unicodedata.normalize("NFKC", c) == c:
+            continue
+        try:
+            urlsplit("//a" + c + "b/")
+        except ValueError:
+            out.append(cp)
+    return out
+
+
+def nfkc_charwise():
+    """`_checknetloc` normalises the WHOLE netloc; the model looks at it character by character.
+    The two agree when (1) a delimiter in the NFKC form of a string always comes from the NFKC form
+    of one of its characters, and (2) recomposition never absorbs a delimiter.  (1) is how
+    normalisation works (decomposition is per code point); (2) holds as long as no canonical
+    decomposition of the running Unicode database has one of the delimiters as a component —
+    which is what this function reports."""
+    import unicodedata
+
+    for cp in range(0x110000):
+        if 0xD800 <= cp <= 0xDFFF:
+            continue
+        d = unicodedata.decomposition(chr(cp))
+        if d and not d.startswith("<"):
+            if any(chr(int(x, 16)) in NFKC_DELIMS for x in d.split()):
+                return False
+    return True
+
+
+@generator
+def gen_nfkc_delims():
+    import unicodedata
+    from translate import lean_nat_list
+
+    codes = nfkc_rejected_codes()
+    src = (
+        "/-! The NFKC check of CPython's `urllib.parse._checknetloc`, observed on the running\n"
+        "interpreter (Unicode %s): the code points `c` for which `urlsplit(\"//a\" + c + \"b/\")`\n"
+        "raises `ValueError` — those whose compatibility (NFKC) form holds one of `/ ? # @ :`. -/\n"
+        "namespace Ural.Gen\n\n"
+        "def nfkcDelimCodes : List Nat := %s\n\n"
+        "/-- no canonical decomposition of the running Unicode database has one of `/ ? # @ :` as a\n"
+        "component: recomposition never absorbs a delimiter, so the check on the whole netloc is the\n"
+        "check character by character -/\n"
+        "def nfkcCharwise : Bool := %s\n\n"
+        "end Ural.Gen\n"
+    ) % (unicodedata.unidata_version, lean_nat_list(codes), "true" if nfkc_charwise() else "false")
+    return {"NfkcDelims.lean": src}
